@@ -13,6 +13,7 @@ import (
 	"strconv"
 	"strings"
 	"sync"
+	"sync/atomic"
 	"testing"
 	"time"
 
@@ -118,6 +119,11 @@ func genScenario(t *rapid.T) scenario {
 		for i := 0; i < n; i++ {
 			add(s.cfg.TLSHeader, rapid.SampledFrom([]string{"true", "on", "forged", ""}).Draw(t, "tlsh"))
 		}
+	}
+	if rapid.IntRange(0, 5).Draw(t, "connection-names-managed-headers") == 0 {
+		// a client may name further hop-by-hop headers in Connection; naming the headers fabio
+		// manages must not be a way to keep them from the upstream
+		add("Connection", rapid.SampledFrom([]string{"X-Real-Ip", "Forwarded, X-Forwarded-Proto", "X-Forwarded-Host, X-Forwarded-Port", "keep-alive, X-Real-Ip, Forwarded", "X-Forwarded-For"}).Draw(t, "connhdr"))
 	}
 	add("X-Unrelated", "keep")
 	return s
@@ -397,9 +403,10 @@ func TestC08Direct(t *testing.T) {
 // real sockets: plain, TLS and websocket requests
 
 type wsUpstream struct {
-	ln   net.Listener
-	mu   sync.Mutex
-	last *http.Request
+	ln    net.Listener
+	mu    sync.Mutex
+	last  *http.Request
+	early int32 // != 0: a 103 Early Hints response precedes the final one
 }
 
 func newWSUpstream() *wsUpstream {
@@ -427,6 +434,10 @@ func newWSUpstream() *wsUpstream {
 					c.Write([]byte("HTTP/1.1 101 Switching Protocols\r\nUpgrade: websocket\r\nConnection: Upgrade\r\n\r\n"))
 					c.Write([]byte("hi"))
 				} else {
+					if atomic.LoadInt32(&u.early) != 0 {
+						// informational response before the final one
+						c.Write([]byte("HTTP/1.1 103 Early Hints\r\nLink: </style.css>; rel=preload\r\n\r\n"))
+					}
 					c.Write([]byte("HTTP/1.1 200 OK\r\nContent-Length: 2\r\nConnection: close\r\n\r\nok"))
 				}
 			}(c)
@@ -474,6 +485,12 @@ func TestC08Loopback(t *testing.T) {
 		up.mu.Lock()
 		up.last = nil
 		up.mu.Unlock()
+		early := int32(0)
+		if rapid.IntRange(0, 3).Draw(t, "early-hints-first") == 0 {
+			early = 1
+			hx.Class("loopback:upstream-sends-103-first")
+		}
+		atomic.StoreInt32(&up.early, early)
 
 		srv := plain
 		if s.tlsOn {
@@ -507,7 +524,11 @@ func TestC08Loopback(t *testing.T) {
 		if _, err := c.Write([]byte(b.String())); err != nil {
 			t.Fatalf("write: %v", err)
 		}
-		resp, err := http.ReadResponse(bufio.NewReader(c), &http.Request{Method: "GET"})
+		br := bufio.NewReader(c)
+		resp, err := http.ReadResponse(br, &http.Request{Method: "GET"})
+		for err == nil && resp.StatusCode >= 102 && resp.StatusCode < 200 {
+			resp, err = http.ReadResponse(br, &http.Request{Method: "GET"})
+		}
 		if err != nil {
 			t.Fatalf("no response: %v\n%s", err, s)
 		}
